@@ -121,6 +121,7 @@ func init() {
 		}
 		return out
 	}
+	H["verifPath"] = func(fr *frame, a []value) value { return a[0] }
 	H["verifCwd"] = func(fr *frame, a []value) value { return fr.i.ex.env().cwd }
 }
 
